@@ -270,7 +270,7 @@ def r_tokenize(P, rep):
     for g in FLAGS:
         if g not in u.globals:
             raise AnalysisBroken('the tokenizer no longer keeps the flag %s in a file-scope variable' % g)
-    rep.rule('R19.2', 'separator flags propagate: new_token records and clears at_bol/has_space; every white-space-skipping arm of tokenize (blank, newline, // and /* */ comments) sets one of them and only the newline arm may touch at_bol; a buffer starts at_bol; copy_token copies everything but `next`; the first token of every expansion, of every substituted argument, and every stringized/pasted/dynamic token takes the white-space flag of the token it stands for, other tokens keep theirs', floor=36)
+    rep.rule('R19.2', 'separator flags propagate: new_token records and clears at_bol/has_space; every white-space-skipping arm of tokenize (blank, newline, // and /* */ comments) sets one of them and only the newline arm may touch at_bol; a buffer starts at_bol; copy_token copies everything but `next`; the first token of every expansion, of every substituted argument, and every stringized/pasted/dynamic token takes the white-space flag of the token it stands for, other tokens keep theirs', floor=42)
     A = Agg(rep)
     # -- new_token
     it = PInterp(P, u, {'track_stores': True, 'globals': {'current_file': lambda ctx: Obj('File', lazy=True, label='current_file')}})
@@ -329,20 +329,21 @@ def r_tokenize(P, rep):
                  'the first token of a buffer is created with (at_bol, has_space) = %r instead of (true, false): the first directive of a file is not recognised / the first token carries a stale flag' % (nt[0][5] if nt else None,), where)
     # -- tokenize: skip arms
     loops = [w for w in fn.walk() if w.kind == 'WhileStmt']
-    cur_decl = [d for d in fn.walk() if d.kind == 'VarDecl' and d.name == 'cur']
-    pvar = [d for d in fn.walk() if d.kind == 'VarDecl' and d.name == 'p']
-    if not loops or not cur_decl or not pvar:
+    locals_ = [d for d in fn.walk() if d.kind == 'VarDecl' and d.enclosing('WhileStmt') is None and d.enclosing('ForStmt') is None]
+    # list cursor(s): locals of type Token * ; scan pointer: the char * local initialised from file->contents
+    cur_decl = [d for d in locals_ if (d.type or '').replace(' ', '') == 'Token*']
+    pvar = [d for d in locals_ if (d.type or '').replace(' ', '') == 'char*' and any(m.kind == 'MemberExpr' and m.name == 'contents' for m in d.walk())]
+    if not loops or not cur_decl or len(pvar) != 1:
         raise AnalysisBroken('tokenize: main loop / list cursor / scan pointer not found')
     loop = loops[0]
     body = loop.inner[1]
     stmts = body.inner if body.kind == 'CompoundStmt' else [body]
-    cur_id, p_id = cur_decl[0].id, pvar[0].id
-    locals_ = [d for d in fn.walk() if d.kind == 'VarDecl' and d.enclosing('WhileStmt') is None]
+    cur_ids, p_id = set(d.id for d in cur_decl), pvar[0].id
     it3 = PInterp(P, u, {'opaque': ['startswith', 'strstr', 'isspace', 'isdigit', 'isalnum', 'strchr', 'read_ident', 'read_punct'],
                          'cut': {'new_token': cut_new_token}, 'loop_limit': 1})
     nskip = {}
     for st in stmts:
-        if _assigns_var(st, cur_id) or st.calls('new_token'):
+        if any(_assigns_var(st, c) for c in cur_ids) or st.calls('new_token'):
             continue        # creates a token
         for init in ((0, 0), (1, 0), (1, 1)):
             def mkenv(ctx, init=init):
@@ -384,6 +385,24 @@ def r_tokenize(P, rep):
                 elif init[0] == 1 and kind != 'newline':
                     A.ob('R19.2', '%s:tokenize:%s-keeps-at_bol' % (TU, kind), isinstance(ab, int) and ab == 1,
                          '%s at the beginning of a line clears at_bol: an indented or commented `#directive` is no longer recognised' % kind, w, facts)
+    # -- tokenize_string_literal: the re-encoded literal stands for the original token
+    if 'tokenize_string_literal' in u.functions:
+        it4 = PInterp(P, u, {'opaque': ['read_utf16_string_literal', 'read_utf32_string_literal'], 'track_stores': True})
+
+        def mk4(ctx):
+            ctx.tok = Obj('Token', lazy=True, label='tok')
+            return [ctx.tok, Obj('Type', lazy=True, label='basety')]
+        w4 = '%s:%d' % (TU, u.fn('tokenize_string_literal').line)
+        for ctx, out in it4.explore('tokenize_string_literal', mk4):
+            if out[0] != 'ret':
+                continue
+            t = as_obj(it4, out[1])
+            if not isinstance(t, Obj):
+                continue
+            for f in FLAGS:
+                v, sv = t.fields.get(f), ctx.tok.fields.get(f)
+                A.ob('R19.2', '%s:tokenize_string_literal:converted-literal-%s' % (TU, f), _same_view(v, sv),
+                     'a string literal re-encoded for concatenation with a wide literal does not keep %s of the original token: -E glues it to the previous token or moves it to another line' % f, w4, {'path': ctx.trail})
     A.flush()
     for k in ('blank', 'newline', 'line-comment', 'block-comment'):
         if not nskip.get(k):
